@@ -8,7 +8,7 @@ namespace Adaptix.Conv
 
 variable {cfg : Cfg} {S : Sem}
 
-theorem nonGeneric_classOrigin {t : Ty} {a : Nat} (h : NonGenericClass t a) : classOrigin t = some a := by
+theorem classOf_classOriginSrc {t : Ty} {a : Nat} (h : ClassOf t a) : classOriginSrc t = some a := by
   cases h <;> rfl
 
 theorem asIs_sem (hW : WorldOk cfg S) {s d : Ty} (h : AsIs cfg.sub s d) :
@@ -25,7 +25,8 @@ theorem asIs_sem (hW : WorldOk cfg S) {s d : Ty} (h : AsIs cfg.sub s d) :
   | subclass ha hb hab =>
     intro v hv
     rw [hasTy_strip] at hv ⊢
-    exact subclass_sem hW (nonGeneric_classOrigin ha) (nonGeneric_classOrigin hb) hab v hv
+    rw [hb]
+    exact subclass_sem hW (classOf_classOriginSrc ha) (by rfl) hab v hv
   | unionSubset hs hd hall =>
     intro v hv
     rw [hasTy_strip] at hv ⊢
